@@ -214,6 +214,11 @@ def main(rec):
             evs = mon.get(lang, {}).get(n, [])
             if len(bodies) == 1 and evs and all(e["source"] in ("default", "none") for e in evs):
                 avail.setdefault(lang, []).append(n)
+            elif len(bodies) > 1 and evs and all(e["source"] in ("default", "none") for e in evs) and r.random() < 0.5:
+                # a name emitted several times (class template instantiations share class.<name>.*): the user's code
+                # must reach every block of that name
+                avail.setdefault(lang, []).append(n)
+                rec.count("multiply_emitted_names_supplied")
         rec.count("duplicate_block_names_in_output", sum(1 for b in defaults.values() if len(b) > 1))
         nvar = 6 if thorough else 2
         for k in range(nvar):
